@@ -9,7 +9,8 @@ def is_any_dimension(factor: Expr) -> bool:
     absorbing nature.
     """
 
-    return factor in (S.Zero, S.Infinity, S.NegativeInfinity, S.NaN)
+    # NOTE: a floating point zero does not compare equal to `S.Zero`, hence the `is_zero` query
+    return factor in (S.Zero, S.Infinity, S.NegativeInfinity, S.NaN) or getattr(factor, "is_zero", None) is True
 
 
 def is_number(value: Any) -> bool:
